@@ -92,13 +92,34 @@ W = [
 ]
 
 
+# Const assertions (type-level arithmetic on the public presets).  `prop` must compile - it IS the property, evaluated by the
+# compiler; `strong` (the same assertion, one notch stronger) must fail with E0080, which shows that the assertion is evaluated
+# and tight; `ctrl` (trivially true) must compile, which separates "the property is violated" from "the harness no longer builds".
+_SPARE_SETUP = '''use constriction::BitArray; use core::marker::PhantomData as PD; use num_traits::AsPrimitive;
+const fn prec<M: EntropyModel<P>, const P: usize>(_: PD<M>) -> usize { P }
+const fn qprec<F, S, Pr: BitArray, const P: usize>(_: PD<LeakyQuantizer<F, S, Pr, P>>) -> usize { P }
+const fn ans<W: BitArray + Into<S>, S: BitArray + AsPrimitive<W>, B>(_: PD<AnsCoder<W, S, B>>) -> usize { S::BITS - W::BITS }
+const fn renc<W: BitArray + Into<S>, S: BitArray + AsPrimitive<W>, B: constriction::backends::WriteWords<W>>(_: PD<RangeEncoder<W, S, B>>) -> usize { S::BITS - W::BITS }
+const fn max(a: usize, b: usize) -> usize { if a > b { a } else { b } }
+const fn min(a: usize, b: usize) -> usize { if a < b { a } else { b } }
+const P_MAX: usize = max(max(max(prec(PD::<DefaultUniformModel>), qprec(PD::<DefaultLeakyQuantizer<f64, i32>>)), max(prec(PD::<DefaultContiguousCategoricalEntropyModel>), prec(PD::<DefaultLazyContiguousCategoricalEntropyModel>))), max(prec(PD::<DefaultNonContiguousCategoricalEncoderModel<i32>>), prec(PD::<DefaultNonContiguousCategoricalDecoderModel<i32>>)));
+const SPARE: usize = min(ans(PD::<DefaultAnsCoder>), renc(PD::<DefaultRangeEncoder>)) - P_MAX;'''
+
+A = [
+    ('c12_default_presets_spare_bits', ['C12'], 'E0080',
+     'with the default presets State::BITS - Word::BITS - PRECISION >= 8 for every default coder/model pair, i.e. the per-symbol term log2(1 + 2^-(S-W-P)) stays below 0.006 bit',
+     _SPARE_SETUP, 'const _: () = assert!(SPARE >= 9);', 'const _: () = assert!(SPARE >= 8);', 'const _: () = assert!(SPARE + 1 >= 1);'),
+]
+
+
 def block(kind, code, setup, body):
     lines = ['/// ```%s' % kind]
     for l in PRELUDE.strip().split('\n'):
         lines.append('/// # ' + l)
     lines.append('/// # #[allow(unused)] fn main() {')
-    if setup:
-        lines.append('/// ' + setup)
+    for l in (setup or '').split('\n'):
+        if l:
+            lines.append('/// ' + l)
     lines.append('/// ' + body)
     lines.append('/// # }')
     lines.append('/// ```')
@@ -116,6 +137,19 @@ def main():
         out.append('/// twin of `w_%s_fail`: differs only in the offending line and must compile' % name)
         out += block('no_run', code, setup, twin)
         out.append('pub struct w_%s_twin;' % name)
+        out.append('')
+    for name, props, code, what, setup, strong, prop, ctrl in A:
+        out.append('/// %s (one notch stronger: must not build)' % what)
+        out += block('compile_fail,%s' % code, code, setup, strong)
+        out.append('pub struct w_%s_fail;' % name)
+        out.append('')
+        out.append('/// the property itself as a const assertion: must build')
+        out += block('no_run', code, setup, prop)
+        out.append('pub struct w_%s_twin;' % name)
+        out.append('')
+        out.append('/// control: the same setup with a trivially true assertion must build')
+        out += block('no_run', code, setup, ctrl)
+        out.append('pub struct w_%s_ctrl;' % name)
         out.append('')
     with open(os.path.join(HERE, 'src', 'lib.rs'), 'w') as f:
         f.write('\n'.join(out) + '\n')
